@@ -16,13 +16,20 @@ import core  # noqa: E402
 
 
 def setup():
+    """Extract + build.  Models, driver and generated facts must build (anything else is an infrastructure failure);
+    property modules are built best-effort here: one that does not build is reported by its own check as broken
+    obligations, it must not take the setup - and with it every other check - down."""
     with core.build_lock():
         core.run_extractor()
-        ok, out = core.lake_build([])
-    sys.stdout.write(out[-3000:])
-    if not ok:
-        print("setup: lake build failed")
-        return 2
+        ok, out = core.lake_build(["JRV.Driver", "JRV.Generated"])
+        if not ok:
+            sys.stdout.write(out[-3000:])
+            print("setup: models/driver do not build")
+            return 2
+        ok_all, out_all = core.lake_build([])
+    if not ok_all:
+        failed = sorted(set(ln.strip() for ln in out_all.splitlines() if ln.startswith("- JRV.")))
+        print("setup: these modules do not build (their checks will report it): %s" % ", ".join(failed))
     print("setup: ok")
     return 0
 
